@@ -81,7 +81,7 @@ LONG_GRAPHS = [
     [0, 9, 9, 0, 6, 0, 0, 6, 6, 0, 0, 6, 0, 9, 9, 0],          # GC-balanced order 2: every vertex has out-degree 2
     [3, 6, 9, 12, 3, 5, 10, 12, 3, 6, 9, 12, 5, 6, 9, 10],     # out-degree 2 everywhere, other arcs
     [15, 6, 9, 15, 3, 15, 12, 7, 15, 10, 5, 15, 14, 15, 11, 13],  # mixed out-degrees 2, 3, 4
-    [1, 6, 2, 12, 3, 4, 10, 8, 3, 2, 9, 4, 5, 6, 8, 10],       # many out-degree-1 vertices
+    [2, 4, 8, 1, 10, 8, 2, 8, 2, 6, 8, 2, 1, 2, 1, 4],         # well-formed, 14 of 16 vertices have out-degree 1
 ]
 
 
